@@ -100,6 +100,14 @@ def m_decode_utf8_lossy(ex, args, callee):
     raise Unsupported('decode_utf8_lossy on invalid UTF-8 (replacement characters not modelled)')
 
 
+def m_from_utf8_lossy(ex, args, callee):
+    """String::from_utf8_lossy: the same bytes when they are well-formed UTF-8, otherwise different bytes (U+FFFD inserted)"""
+    src = dv(args[0])
+    bs = sb_bytes(src)
+    if ex.truth(utf8_valid(bs)): return src
+    return Opaque('lossy-utf8-of', src)
+
+
 def ascii_lower(b):
     b = b8(b)
     return z3.If(z3.And(z3.UGE(b, c8('A')), z3.ULE(b, c8('Z'))), b + 32, b)
@@ -208,6 +216,8 @@ MODELS = [
     (r'^percent_decode_str$|percent_encoding::percent_decode_str$', m_percent_decode_str),
     (r'PercentDecode::<.*>::decode_utf8$', m_decode_utf8),
     (r'PercentDecode::<.*>::decode_utf8_lossy$', m_decode_utf8_lossy),
+    (r'String::from_utf8_lossy$', m_from_utf8_lossy),
+    (r'Cow::<.*str>::into_owned$|<Cow<.*str> as ToString>::to_string$', lambda ex, a, c: dv(a[0])),
     (r'<Cow<.*> as Deref>::deref$|Cow::<.*>::into_owned$', lambda ex, a, c: dv(a[0])),
     (r'<impl str>::eq_ignore_ascii_case$', m_eq_ignore_ascii_case),
     (r'<impl str>::to_lowercase$|<impl str>::to_ascii_lowercase$', m_to_lowercase),
